@@ -21,6 +21,8 @@ type fnInfo struct {
 	ipdom map[*ssa.BasicBlock]*ssa.BasicBlock // nil value = virtual exit
 	pdOK  bool
 	liveIn map[*ssa.BasicBlock]map[int]bool
+	mu    sync.Mutex
+	alt   map[*ssa.BasicBlock]*ssa.BasicBlock
 }
 
 var fnInfos sync.Map
@@ -29,7 +31,7 @@ func infoOf(fn *ssa.Function) *fnInfo {
 	if v, ok := fnInfos.Load(fn); ok {
 		return v.(*fnInfo)
 	}
-	fi := &fnInfo{idx: map[ssa.Value]int{}}
+	fi := &fnInfo{idx: map[ssa.Value]int{}, alt: map[*ssa.BasicBlock]*ssa.BasicBlock{}}
 	add := func(v ssa.Value) {
 		fi.idx[v] = fi.n
 		fi.n++
@@ -70,6 +72,8 @@ type Frame struct {
 	// where to put the result in the caller (nil = discard)
 	retTo  ssa.Value
 	isDefer bool
+	phiOv  []Value // merged phi inputs pending for the block just entered
+	hasPhiOv bool
 }
 
 type gStatus int
@@ -145,7 +149,11 @@ type Exec struct {
 	spec    int
 	undo    *[]undoRec
 	noMerge map[*ssa.BasicBlock]bool
+	noMergeAlt map[*ssa.BasicBlock]bool
 	merges  int
+	armDepths []int
+	armRet  Value
+	hasArmRet bool
 	mergeAborts int
 
 	// results
@@ -387,6 +395,7 @@ func (ex *Exec) step(g *G) {
 
 // jump transfers control within a frame, evaluating phis of the target.
 func (ex *Exec) jump(f *Frame, to *ssa.BasicBlock) {
+	f.phiOv, f.hasPhiOv = nil, false
 	f.prev = f.block
 	f.block = to
 	f.pc = 0
@@ -395,6 +404,14 @@ func (ex *Exec) jump(f *Frame, to *ssa.BasicBlock) {
 // doPhis evaluates the phi nodes of the current block in parallel.
 func (ex *Exec) doPhis(f *Frame) {
 	b := f.block
+	if f.hasPhiOv {
+		for i, v := range f.phiOv {
+			ex.setReg(f, b.Instrs[i].(*ssa.Phi), v)
+		}
+		f.pc = len(f.phiOv)
+		f.phiOv, f.hasPhiOv = nil, false
+		return
+	}
 	var idx int
 	for i, p := range b.Preds {
 		if p == f.prev {
@@ -522,9 +539,13 @@ func NewExec(p *Program, sol *Solver, fpMode bool, trace []bool, noMerge map[*ss
 	if noMerge == nil {
 		noMerge = map[*ssa.BasicBlock]bool{}
 	}
+	ts := NewTermStore()
+	if fpMode {
+		ts.FPSubLemma = sol.FPSubLemma()
+	}
 	return &Exec{
-		Prog: p, TS: NewTermStore(), Sol: sol, FPMode: fpMode, trace: trace,
-		MaxSteps: 3000000, noMerge: noMerge,
+		Prog: p, TS: ts, Sol: sol, FPMode: fpMode, trace: trace,
+		MaxSteps: 3000000, noMerge: noMerge, noMergeAlt: map[*ssa.BasicBlock]bool{},
 		Reach: map[string]bool{}, Info: map[string]string{},
 		globals: map[*ssa.Global]*Value{}, nondetSeen: map[string]bool{},
 		memAcc: map[*Value][]memAcc{}, stubs: map[string]bool{}, funcs: map[*ssa.Function]bool{},
